@@ -33,4 +33,16 @@ var plans = map[string]propPlan{
 		Real: powReal, Stub: powStub,
 		Assume: []string{"reference difficulty / score in math/big written from the statement", "pass-over scan limited to the first 65536 nonces (never reached in practice; counted if truncated)", "sampling, not enumeration"},
 	},
+	"C02": {
+		Engine:   "slipsim",
+		Quick:    []flavPlan{{"plain", 24000, 200}},
+		Thorough: []flavPlan{{"plain", 1500000, 2000}},
+		Rule: "one evaluation = one sequence of 3..16 API operations (NewMasterKey, DeriveChild hardened / non-hardened at boundary and random indices, Public, DeriveKeyFromPath) on one of the three curves wrapped in a fault-injecting Curve/Key double " +
+			"(retryable invalid-key faults as a keyed predicate over the candidate bytes at rate 0 / 0.5 / 0.9 / 0.99, permanent errors at the n-th collaborator call), every result compared with the reference model under the same fault plan; " +
+			"non-trivial if at least one injected fault fired; distinct = distinct hashes of the (operation kind, outcome, retry count, fault position) sequence among those",
+		Real: []string{"pkg/slip10 (NewMasterKey, DeriveKeyFromPath, DeriveChild, Public, Fingerprint)", "the real curve implementations behind the double: slip10/elliptic (secp256k1 via internal btccurve, P-256) and slip10/eddsa"},
+		Stub: []string{"the Curve/Key collaborator is wrapped: before delegating to the real curve it may return ErrInvalidKey (retryable) or a permanent error, as decided by the run's seeded fault plan"},
+		Assume: []string{"reference SLIP-0010 model in sim/ref written from the specification (own Jacobian curve arithmetic, stdlib HMAC/SHA/ed25519), self-tested against the published SLIP-0010 vectors including the retry vectors", "sampling, not enumeration",
+			"the real curves' own validity boundary (k = 0, k >= n, sum = 0) is not reachable by HMAC outputs and is not decided here"},
+	},
 }
